@@ -171,7 +171,7 @@ def run(report, db, tier):
     mode(report, db, cg, M)
     R5 = report.rule('R01.5', 'cipher transparency: wrapper methods are '
                      'single pass-through updates')
-    shared.wrapper_passthrough(report, R5, db)
+    shared.wrapper_passthrough_ps(report, R5, db)
 
 
 def writer(report, db, S, M):
